@@ -90,10 +90,53 @@ impl PartialOrd for V {
         Some(self.cmp(other))
     }
 }
-/// total order shared with the Lean model (`Val.le`): by `to_int`, ties by the encoded text
+impl V {
+    /// variant rank of the structural order: `I < S < U < N < O < P < L` (Lean `Val.rank`; there `nil` = 6,
+    /// `cons` = 7 — both are `L` here, the empty list first by the prefix rule below)
+    fn rank(&self) -> u8 {
+        match self {
+            V::I(_) => 0,
+            V::S(_) => 1,
+            V::U => 2,
+            V::N => 3,
+            V::O(_) => 4,
+            V::P(..) => 5,
+            V::L(_) => 6,
+        }
+    }
+    /// the structural order (Lean `Val.cmp`): variant rank, then the components — ints numerically, strings
+    /// bytewise (= by code point), `O` / `P` component-wise, lists lexicographically (head, then tail; a
+    /// proper prefix is smaller). `Equal` only for equal values, so `Ord` agrees with the derived `Eq`.
+    pub fn struct_cmp(&self, other: &V) -> std::cmp::Ordering {
+        use std::cmp::Ordering;
+        match (self, other) {
+            (V::I(a), V::I(b)) => a.cmp(b),
+            (V::S(a), V::S(b)) => a.as_bytes().cmp(b.as_bytes()),
+            (V::O(a), V::O(b)) => a.struct_cmp(b),
+            (V::P(a1, a2), V::P(b1, b2)) => a1.struct_cmp(b1).then_with(|| a2.struct_cmp(b2)),
+            (V::L(a), V::L(b)) => {
+                let mut i = 0;
+                loop {
+                    match (a.get(i), b.get(i)) {
+                        (None, None) => return Ordering::Equal,
+                        (None, Some(_)) => return Ordering::Less,    // `nil < cons`
+                        (Some(_), None) => return Ordering::Greater,
+                        (Some(x), Some(y)) => match x.struct_cmp(y) {
+                            Ordering::Equal => i += 1,
+                            o => return o,
+                        },
+                    }
+                }
+            }
+            (a, b) => a.rank().cmp(&b.rank()),
+        }
+    }
+}
+/// total order shared with the Lean model (`Val.le`): by `to_int`, ties by the structural order
+/// (`Val.cmp`) — NOT by the encoded text, which is kept for the wire format and `deep_canon` only
 impl Ord for V {
     fn cmp(&self, other: &Self) -> std::cmp::Ordering {
-        self.to_int().cmp(&other.to_int()).then_with(|| self.enc().cmp(&other.enc()))
+        self.to_int().cmp(&other.to_int()).then_with(|| self.struct_cmp(other))
     }
 }
 impl Default for V {
